@@ -98,9 +98,9 @@ def new (delayNs : Nat) (feedback mix : Value α α) (fx : φ) : Delay α φ :=
     cmdFeedback := none, cmdMix := none
     buffer := [], tempLen := 0, fx := fx }
 
-/-- `(self.delay_time.as_secs_f64() * sample_rate as f64) as usize` -/
+/-- `((self.delay_time.as_secs_f64() * sample_rate as f64) as usize).max(1)` — at least one frame -/
 def frames (α : Type) [Add α] [Mul α] [Div α] [OfScientific α] [KOps α] (delayNs sr : Nat) : Nat :=
-  KOps.toNatSat ((durToSecs delayNs : α) * (KOps.ofNat sr : α))
+  max (KOps.toNatSat ((durToSecs delayNs : α) * (KOps.ofNat sr : α))) 1
 
 /-- mirrors: `Effect::init` for Delay -/
 def init (C : FxChain α φ) (d : Delay α φ) (sr ibs : Nat) : Delay α φ :=
